@@ -110,12 +110,12 @@ PROPS = {
                  'reading of the statement: collection is in snapshot order by design, an older open snapshot pins later garbage (recorded by-design finding D18)'],
     ),
     'C05': dict(
-        modules=['NitroVerif.Props.C05', 'NitroVerif.Props.C05e2e', 'NitroVerif.Props.C10', 'NitroVerif.Props.C18'],
+        modules=['NitroVerif.Props.C05', 'NitroVerif.Props.C05e2e', 'NitroVerif.Props.C05load', 'NitroVerif.Props.C10', 'NitroVerif.Props.C18'],
         runs=[('mvcc', gens.gen_backup, 120, 6000), ('mvcc', gens.gen_mvcc_visit, 100, 5000), ('mvcc', gens.gen_backup_stress, 12, 400),
               ('codec', gens.gen_codec_parallel, 4, 40)],
         keep_prefix=1,
         level='proof',
-        level_text='C05_end_to_end (what the Visitor of the MVCC model hands to the shard writers, framed and described by the manifests, loads back as exactly the snapshot content, for every pivot list), C05_roundtrip (any partition of the content into shard files), C05_roundtrip_delta_general and C05_delta_any_interleaving are proved on the backup model over an abstract file system (framing from C19, assembly in file order); that the Visitor produces a partition is C10, that the assembled list is well formed is C18. Differential: random histories, store of any open snapshot with mutation and collection during the backup (delta on/off), restore into a fresh instance, scan, continue the history',
+        level_text='C05_end_to_end (what the Visitor of the MVCC model hands to the shard writers, framed and described by the manifests, loads back as exactly the snapshot content, for every pivot list), C05_roundtrip (any partition of the content into shard files), C05_roundtrip_delta_general and C05_delta_any_interleaving are proved on the backup model over an abstract file system (framing from C19, assembly in file order); that the Visitor produces a partition is C10, that the assembled list is well formed is C18, and the two are composed mechanically (Props/C05load): C05_load_is_assemble / C05_restore_shards (the restore AS THE CODE DOES IT on the pointer-heap skiplist model — one builder segment per shard filled by Segment.Add with arbitrary level requests, in ANY interleaving of the concurrent loaders, then Assemble in file order — scans as exactly the list that the backup model load returns, is well formed, has one node per item and continues as the ordered set), C05_load_interleaving_independent, C05_end_to_end_through_builder, C05_load_delta_is_assemble_then_insert (delta items applied one at a time). Differential: random histories, store of any open snapshot with mutation and collection during the backup (delta on/off), restore into a fresh instance, scan, continue the history',
         trusted=['Lean 4 kernel', 'tools/gofacts translation of the checksum tests, delta visibility test, skeletons of StoreToDisk/LoadFromDisk',
                  'differential run of store/load round trips on the real code, including churn during the backup through the item callback',
                  'encoding/json, bufio, os are parameters of the model; crc32 is generic in the theorems'],
@@ -146,8 +146,8 @@ PROPS = {
         modules=['NitroVerif.Props.C15', 'NitroVerif.Props.C15scan'],
         iruns=[('skipconc', gens.gen_skipconc, 150, 6000), ('skipconc', gens.gen_skipconc_scan, 100, 4000), ('skipconc', gens.gen_skipconc_free, 60, 3000)],
         level='proof',
-        level_text='Whole scans (Props/C15scan, history variables next to the unchanged model, every run, every number of threads): C15_complete (every node published before the scan started, still unmarked, with seek key <= key < cursor key has been returned — in every state in which no call of the scan is in progress; for the first call this is "Seek(x) lands on an item >= x with no stable item in between"), C15_complete_at_end, C15_monotone (strictly larger key, or the same key with the earlier node deleted and the later one published after the earlier return), C15_present_partial (every returned position is a published node still on the level-0 chain in the state of the return; unmarked when the returning segment ended a findPath). The literal reading of "present at some moment during the scan" as "unmarked at level 0" is REFUTED for the model and the real code (C15_present_refuted / C15_present_counterexample: a node whose Delete is parked between softDelete and its cleaning search is returned by SeekFirst / Next; replayed with the Go harness) — its Delete has not returned yet, which is the reading the check uses. Per-step theorems C15_monotone_partial, C15_research_ge_partial, C15_seek_ge_partial, C15_seek_no_stable_between, C15_refresh_after_step. Steered schedules with iterators parked on nodes that are deleted (helpDelete success and failure paths), finite refresh intervals and real reclamation are validated against the model',
-        trusted=['Lean 4 kernel', 'tools/gofacts skeleton of skiplist Iterator.Next', 'steered iterator/insert/delete schedules validated step by step'],
+        level_text='Whole scans (Props/C15scan, history variables next to the unchanged model, every run, every number of threads): C15_complete (every node published before the scan started, still unmarked, with seek key <= key < cursor key has been returned — in every state in which no call of the scan is in progress; for the first call this is "Seek(x) lands on an item >= x with no stable item in between"), C15_complete_at_end, C15_monotone (strictly larger key, or the same key with the earlier node deleted and the later one published after the earlier return), C15_present_partial (every returned position is a published node still on the level-0 chain in the state of the return; unmarked when the returning segment ended a findPath). The literal reading of "present at some moment during the scan" as "unmarked at level 0" is REFUTED for the model and the real code (C15_present_refuted / C15_present_counterexample: a node whose Delete is parked between softDelete and its cleaning search is returned by SeekFirst / Next; replayed with the Go harness) — its Delete has not returned yet, which is the reading the check uses. Scans may contain explicit Refresh() calls anywhere between the Next calls (Op.itRefresh; C15_refresh_return: a refresh that lands on the same node delivers nothing new, one that finds the cursor node deleted appends the node it lands on) — the mechanised content of "refreshing does not change these guarantees"; Pause/Resume do not touch the cursor (with user-managed memory a paused iterator is unprotected: recorded finding C15-D24). Per-step theorems C15_monotone_partial, C15_research_ge_partial, C15_seek_ge_partial, C15_seek_no_stable_between, C15_refresh_after_step. Steered schedules with iterators parked on nodes that are deleted (helpDelete success and failure paths), finite refresh intervals and real reclamation are validated against the model',
+        trusted=['Lean 4 kernel', 'tools/gofacts skeleton of skiplist Iterator.Next', 'steered iterator/insert/delete schedules validated step by step, incl. explicit Refresh, Pause/Resume, and operations injected at the late point behind the unlink CAS of Next (stepinj)'],
     ),
     'C18': dict(
         modules=['NitroVerif.Props.C18'],
